@@ -553,9 +553,9 @@ func (c *wfChecker) referrers() {
 
 type wfBits []uint64
 
-func wfNewBits(n int) wfBits      { return make(wfBits, (n+63)/64) }
-func (s wfBits) has(i int) bool   { return s[i/64]&(1<<(uint(i)%64)) != 0 }
-func (s wfBits) set(i int)        { s[i/64] |= 1 << (uint(i) % 64) }
+func wfNewBits(n int) wfBits    { return make(wfBits, (n+63)/64) }
+func (s wfBits) has(i int) bool { return s[i/64]&(1<<(uint(i)%64)) != 0 }
+func (s wfBits) set(i int)      { s[i/64] |= 1 << (uint(i) % 64) }
 func (s wfBits) fill(n int) {
 	for i := 0; i < n; i++ {
 		s.set(i)
